@@ -40,6 +40,7 @@ import (
 	"sync/atomic"
 	"time"
 
+	"harness/internal/childcase"
 	"harness/internal/lp"
 	"harness/internal/quiesce"
 
@@ -396,7 +397,43 @@ func capacityOfFreshPool(bound, q int, io, cc bool) int {
 	return c
 }
 
+// exec: cases that contain a panicking task run in a child process (a panic the pool does not contain
+// kills the process; the parent turns that into the direct-oracle report c19-panic with the case as the
+// failing input); everything else runs in-process.
 func exec(e *lp.Exec) {
+	if childcase.IsChild() {
+		execStream(e)
+		return
+	}
+	var batch []string
+	flush := func() {
+		if len(batch) > 0 {
+			e.In = childcase.Scanner(batch)
+			execStream(e)
+			batch = nil
+		}
+	}
+	for _, cs := range childcase.Split(e.In) {
+		risky := false
+		for _, l := range cs {
+			if strings.Contains(l, " p=1") {
+				risky = true
+			}
+		}
+		if !risky {
+			batch = append(batch, cs...)
+			continue
+		}
+		flush()
+		if crashed, why := childcase.Run(e, cs); crashed {
+			e.Oracle("c19-panic", "not contained: a panicking task killed the process (%s)", why)
+			e.Key("crash|"+cs[0], true)
+		}
+	}
+	flush()
+}
+
+func execStream(e *lp.Exec) {
 	lg := &capLogger{}
 	logging.SetLogger(lg)
 	vsys.AtomicHook64 = hook
